@@ -47,26 +47,23 @@ Definition oracle17 (c : case17) : bool :=
   else match go c with None => go_nil_on_err c | Some _ => false end.
 
 (* M: the loop of RenderPartials over the engine with its template set as state: the history
-   of the engine under test (loads, filtered reloads, renders, partial requests) from a fresh
+   of the engine under test (loads, filtered loads, renders, partial requests) from a fresh
    engine, then the judged request; a template that is found gives the content the reference
-   gave for that name.  By C17_reloads_harmless / C17_fresh_engine_history / C17_debug_engine
-   this is the pure loop over the exact lookup in the tree on every in-domain case. *)
+   gave for that name.  By C17_every_history / C17_debug_engine this is the pure loop over the
+   exact lookup in the tree on every case. *)
 Definition eng17 (c : case17) := render_eng (files c) (render_of c) (dbg c).
 
 Definition model17 (c : case17) : option (list (bytes * bytes)) :=
   snd (render_partialsS tset (eng17 c)
-         (after tset (eng17 c) (load (files c)) None (hist c)) (tname c) (req c)).
+         (after tset (eng17 c) (load (files c)) fresh (hist c)) (tname c) (req c)).
 
-(* domain: on a production-mode engine that never loaded, the first call that touches the
-   template set is not a filtered load (see C17_filtered_first_refuted) *)
-Definition dom17 (c : case17) : bool := dbg c || hist_ok (hist c).
-
-(* diagnostic: the requested names with "is a file of the tree", and the template set of the
-   model engine when the judged call arrives *)
+(* diagnostic: the requested names with "is a file of the tree", and the state of the model
+   engine when the judged call arrives *)
 Definition exists17 (c : case17) : list (bytes * bool) :=
   map (fun p => (partial_name (tname c) p, partial_exists (files c) (tname c) p)) (req c).
 
-Definition state17 (c : case17) : tset := after tset (eng17 c) (load (files c)) None (hist c).
+Definition state17 (c : case17) : tset := after tset (eng17 c) (load (files c)) fresh (hist c).
 
+(* every history is in the domain (a filtered load as the first call included, since dd313c0) *)
 Definition judge (c : case17) : nat :=
-  verdict (dom17 c) (oracle17 c) (res_eqb (model17 c) (go c)).
+  verdict true (oracle17 c) (res_eqb (model17 c) (go c)).
